@@ -1374,8 +1374,11 @@ theorem pointOf_feasible {s : Spec} (hs : Plain s) (asg : List Nat) (h : IsAssig
 
 /-- **C17 (6): with unit weights, one copy of every item and no caller constraints, the optimum of the
     formulation is the optimum over all partitions** — the ascending-sums symmetry breaker loses nothing. -/
-theorem unit_weights_wlog (s : Spec) (hs : Plain s) (_hk : 0 < s.k) (x : Rat) (h : ilpBest s = some x) :
+theorem unit_weights_wlog (s : Spec) (hw : s.weights = List.replicate s.k 1)
+    (hc : s.copies = List.replicate s.vals.length 1) (hcons : s.cons = []) (_hk : 0 < s.k)
+    (x : Rat) (h : ilpBest s = some x) :
     ∃ x' : Int, x = (x' : Rat) ∧ IsOptimalValue s.obj s.k s.vals x' := by
+  have hs : Plain s := ⟨hw, hc, hcons⟩
   have hu := unitWeights_of_replicate hs.weights
   obtain ⟨⟨p, hp, hx⟩, hmin⟩ := (ilpBest_spec s x).1 h
   -- the optimal point is a partition, hence an assignment
@@ -1394,8 +1397,6 @@ theorem unit_weights_wlog (s : Spec) (hs : Plain s) (_hk : 0 < s.k) (x : Rat) (h
       Oracle.value_sortAsc, ← hx, docValue_unit hu hp, ← hso] at this
     exact_mod_cast this
 
-theorem exSpecU_plain : Plain exSpecU := ⟨rfl, rfl, rfl⟩
-
 /-- non-vacuity, with the value computed: for the items `[11, 11, 11, 11, 22]` and two bins the formulation's
     optimum of the difference objective is `0` (the partition `33 | 33`), obtained from the DP oracle through
     `unit_weights_wlog` -/
@@ -1406,7 +1407,7 @@ example : ilpBest exSpecU = some 0 := by
     rw [exPointU_feasible] at this
     cases this
   | some x =>
-    obtain ⟨x', hx, hopt⟩ := unit_weights_wlog exSpecU exSpecU_plain (by decide) x h
+    obtain ⟨x', hx, hopt⟩ := unit_weights_wlog exSpecU rfl rfl rfl (by decide) x h
     obtain ⟨y, hy, hoy⟩ := Oracle.dpBestValue_spec .minDiff [11, 11, 11, 11, 22] (k := 2) (by decide)
     have h0 : dpBestValue .minDiff 2 [11, 11, 11, 11, 22] = some 0 := by decide
     rw [h0] at hy
@@ -1552,3 +1553,55 @@ theorem equal_weights_same_as_none (c : Nat) (hc : 0 < c) (s : Spec) (hw : s.wei
   have e₁ := (result_order v s₁ items p hv hw₁
     (by intro w hw'; rw [(List.mem_replicate.1 hw').2]; exact Nat.one_pos) hf₁).1
   rw [e, e₁]
+
+/-- non-vacuity: the running example with weights `[6, 3]` instead of `[2, 1]` -/
+example : feasible (scaleWeights 3 exSpec) exPoint = true := by
+  rw [(equal_weights_scale 3 (by decide) exSpec rfl rfl exPoint).1]; exact exPoint_feasible
+
+example : (scaleWeights 3 exSpec).weights = [6, 3] := by decide
+
+/-- the weights `[0, 0]` of the remark after `result_order` do make the unsorted point feasible -/
+example : feasible { exSpecU with weights := [0, 0] } [[1, 0], [1, 0], [1, 0], [1, 0], [1, 0]] = true := by
+  rw [feasible_iff]
+  refine ⟨by decide, by decide, ?_, by simp [exSpecU]⟩
+  intro b hb
+  have hb0 : b = 0 := by simp only [exSpecU] at hb; omega
+  subst hb0
+  simp [wSum, exSpecU]
+
+/-! ## 8. summary: what the caller gets from an optimal answer of the solver -/
+
+/-- **C17, assembled.**  Assume the (trusted) solver returns a point `p` that satisfies all rows and whose
+    objective row is minimal among such points.  Then the returned bins-array (a) has `k` bins whose sums are
+    consistent with their contents, (b) places item `i` exactly `copies[i]` times, (c) is the read-back itself —
+    the final sort moves nothing — so bin `b` is the bin whose sum `rawSum s p b` was divided by `weights[b]`,
+    and the weighted sums are non-decreasing, (d) satisfies every caller constraint, and (e) its documented
+    objective value is `ilpBest s`, the least one among all feasible points. -/
+theorem solver_answer_spec {α : Type} (v : α → Nat) (s : Spec) (items : List α) (p : Point)
+    (hv : items.map v = s.vals) (hc : s.copies.length = s.vals.length) (hw : s.weights.length = s.k)
+    (hpos : ∀ w ∈ s.weights, 0 < w) (hk : 0 < s.k)
+    (hsat : satisfies s p = true) (hopt : ∀ q, satisfies s q = true → objValue s p ≤ objValue s q) :
+    let out := decode v s items p
+    (out.Consistent v ∧ out.lists.length = s.k) ∧
+    out.lists.flatten.Perm ((items.zip s.copies).flatMap fun ic => List.replicate ic.2 ic.1) ∧
+    (out.sums = (List.range s.k).map (rawSum s p) ∧ (wSums s p).Pairwise (· ≤ ·)) ∧
+    (∀ c ∈ s.cons, c.holdsOn (wSums s p) = true) ∧
+    (ilpBest s = some (docValue s.obj (wSums s p)) ∧
+      ∀ q, feasible s q = true → docValue s.obj (wSums s p) ≤ docValue s.obj (wSums s q)) := by
+  intro out
+  have hf : feasible s p = true := by rw [← rows_iff_feasible' s p hk]; exact hsat
+  obtain ⟨hdec, hsums, -, -⟩ := result_order v s items p hv hw hpos hf
+  have hmin : ∀ q, feasible s q = true → docValue s.obj (wSums s p) ≤ docValue s.obj (wSums s q) := by
+    intro q hq
+    have := hopt q (by rw [rows_iff_feasible' s q hk]; exact hq)
+    rwa [objValue_eq_docValue s p hk, objValue_eq_docValue s q hk] at this
+  refine ⟨⟨?_, ?_⟩, ?_, ⟨hsums, feasible_ascending hf⟩, ((feasible_iff s p).1 hf).2.2.2, ?_, hmin⟩
+  · show (decode v s items p).Consistent v
+    rw [hdec]; exact decodeRaw_consistent v s.k items p
+  · show (decode v s items p).lists.length = s.k
+    rw [hdec]; exact (decodeRaw_length v s.k items p).1
+  · show (decode v s items p).lists.flatten.Perm _
+    rw [hdec]; exact decode_copies_feasible v s items p hv hc hf
+  · exact (ilpBest_spec s _).2 ⟨⟨p, hf, rfl⟩, hmin⟩
+
+end Prtpy.ILPProofs
